@@ -52,6 +52,7 @@ def run(cx):
     r1(cx)
     r1_flag(cx, only=("is_oneway",))
     r1_ctor(cx)
+    r1_request_stable(cx)
     r2(cx)
 
 
@@ -174,6 +175,19 @@ def r1_ctor(cx):
         ok = any(k == "arg" and v == 2 for k, v in orig) and not any(k == "agg" for k, v in orig)
     cx.check(ok, "C04.R1", "varlink:Call::new:request-stored", body.sp, "Call::new does not store Some(request): the oneway/more flags of the request would be invisible to the reply writers",
              note_ok="Call.request = Some(request argument)")
+
+
+def r1_request_stable(cx):
+    """is_oneway()/wants_more() read the flags from Call.request for the whole lifetime of the call: nothing outside the constructors assigns that field"""
+    n = 0
+    for b in cx.mir.bodies():
+        if b.promoted is not None: continue
+        for s in b.stmts():
+            if s.kind == "assign" and s.lhs.p and s.lhs.fields()[-1:] == ["request"] and is_call_ty(b.ty(s.lhs.l)):
+                n += 1
+                cx.bad("C04.R1", "%s:%s:assigns-Call.request" % (b.pkg, b.path), "%s %s" % (s.sp, b.path),
+                       "Call.request is overwritten after construction: from then on is_oneway() (and wants_more()) no longer see the flags of the request being served, so a oneway call can be answered")
+    if n == 0: cx.ok("C04.R1", "workspace:Call.request:write-once", "-", "Call.request is set by Call::new/new_upgraded only")
 
 
 def r2(cx):
